@@ -244,13 +244,12 @@ def judgeSeq (r : Req) : String :=
     else "ok"
   s!"id={id} c08={c08}"
 
-def judgeLine (line : String) : String :=
-  let (cmd, r) := parseReq line
+/-- commands of this file; `none` = not mine -/
+def handleCore (cmd : String) (r : Req) : Option String :=
   match cmd with
-  | "sym" => judgeSym r
-  | "fit" => judgeFit r
-  | "seq" => judgeSeq r
-  | "" => ""
-  | _ => s!"error=unknown-command-{cmd}"
+  | "sym" => some (judgeSym r)
+  | "fit" => some (judgeFit r)
+  | "seq" => some (judgeSeq r)
+  | _ => none
 
 end Spec
